@@ -12,7 +12,7 @@ from xml.sax.saxutils import escape, quoteattr
 
 from run import Broken, Violation
 
-GEN = ["Omml"]
+GEN = ["Omml", "PyOmml"]
 RULE = ("trees = (a) committed regression witnesses, (b) every structural element x every subset of its optional "
         "children/attributes x small operand pool (exhaustive), (c) random schema-ordered trees to depth 6 with "
         "property elements interleaved and bracket-only radicals, (d) malformed variants (shuffled/duplicated/"
